@@ -23,7 +23,7 @@ var pomScopes = []string{"", "", "", "test", "runtime", "provided", "compile", "
 var gradleConfs = []string{"implementation", "implementation", "api", "compileOnly", "runtimeOnly", "testImplementation", "testRuntimeOnly",
 	"annotationProcessor", "developmentOnly", "compile", "testCompile", "integrationTestImplementation"}
 var pomSections = []string{"coords", "parent", "meta", "properties", "depMgmt", "build", "profiles", "modules", "repositories", "comment"}
-var gradleBlocks = []string{"plugins", "apply", "coords", "repositories", "buildscript", "configurations", "ext", "test", "task", "jar", "comment"}
+var gradleBlocks = []string{"plugins", "apply", "coords", "repositories", "repourl", "buildscript", "configurations", "ext", "test", "task", "jar", "comment"}
 
 func isJavaPackage(g string) bool {
 	for _, c := range g {
